@@ -13,6 +13,7 @@ import YashModel.Pipe.Flow
 import YashModel.Pipe.Fds
 import YashModel.Pipe.File
 import YashModel.Pipe.Wake
+import YashModel.Pipe.Chain
 open YashModel YashModel.Pipe YashModel.Proto
 
 abbrev Byte := Nat
@@ -297,6 +298,13 @@ def runXfer (ws : List String) : String :=
     (match wtransfer cfg (kvNat ws "seed") (kvNat ws "wk") (kvNat ws "rk") p with
       | some x => s!"recv={x.length}:{hashBytes x} w=closed r=done"
       | none => "stuck") ++ "\t" ++ s!"=recv={want.length}:{hashBytes want} w=closed r=done"
+  else if kvNat ws "mid" != 0 then
+    -- a concurrent pipeline `writer | mid × forwarder | reader`: every process scheduled on its own (Chain.lean)
+    let p := payload (kvNat ws "n") (kvNat ws "pat") (kvNat ws "per") (kvNat ws "nl")
+    let want := specTransfer p
+    (match chainTransfer cfg (kvNat ws "seed") (kvNat ws "mid") (kvNat ws "wk") (kvNat ws "rk") p with
+      | some x => s!"recv={x.length}:{hashBytes x} w=closed f=closed r=done"
+      | none => "stuck") ++ "\t" ++ s!"=recv={want.length}:{hashBytes want} w=closed f=closed r=done"
   else
   let n := kvNat ws "n"
   let p := payload n (kvNat ws "pat") (kvNat ws "per") (kvNat ws "nl")
